@@ -164,6 +164,7 @@ func (s *supervisor) processDied(r *processorRequestDied) {
 	// Okay, so a Runnable has quit. What now?
 	n := s.nodeByDN(r.dn)
 	ctx := n.ctx
+	n.returned = true
 
 	// Simple case: it was marked as Done and quit with no error.
 	if n.state == nodeStateDone && r.err == nil {
@@ -308,7 +309,9 @@ func (s *supervisor) processGC() {
 		curReady := false
 		switch cur.state {
 		case nodeStateDone:
-			curReady = true
+			// Only once the runnable has actually returned: otherwise its death notice would later hit a
+			// re-initialized (or not yet re-created) node, or two instances would run at once.
+			curReady = cur.returned
 		case nodeStateCanceled:
 			curReady = true
 		case nodeStateDead:
